@@ -86,6 +86,7 @@ func TestVerifC01Approved(t *testing.T) {
 	defer func() { vgen.InvalidUTF8Names = false }()
 	rapid.Check(t, func(t *rapid.T) {
 		defer vuProcessZone(t)()
+		vgen.ConcatTwins = true
 		scn := vgen.UploadCase(t, vgen.FileOpts{StrictOS: true, BigValues: true, AllowBad: rapid.IntRange(0, 3).Draw(t, "allowBad") == 0})
 		dir := vuFreshDir(base)
 		defer os.RemoveAll(dir)
